@@ -32,7 +32,7 @@ def nparts(case):
 
 def check_case(case, common, out):
     prog = C.PROGRAMS[case[3]]
-    if prog.dask_only:
+    if prog.dask_only or prog.undefined:
         return
     exp = oracle(case)
     cid = K.case_id(case)
